@@ -672,13 +672,18 @@ class AS241:
     def matches_near(self, reg, lo, hi, z):
         """is z the value of formula `reg` at SOME p of [lo, hi]?  (each formula is monotone in p; used when the uniform
         number is only known up to the rounding of the Halton construction)"""
-        if self.matches(reg, lo, z) or self.matches(reg, hi, z):
+        if self.matches(reg, lo, z) or self.matches(reg, hi, z) or self.matches(reg, (lo + hi) / 2, z):
             return True
         try:
             a, b = self.value(reg, lo), self.value(reg, hi)
         except (ValueError, ZeroDivisionError, OverflowError):
             return False
-        return finite(a) and finite(b) and min(a, b) <= z <= max(a, b)
+        if not (finite(a) and finite(b) and finite(z)):
+            return False
+        # where the code applies a formula outside its domain (known defect) the computed function is noisy at the
+        # 10-ulp level and not monotone at that scale: 64 ulps of slack (a wrong base or skip moves z by > 1e-6)
+        slack = 64 * U53 * max(abs(F(a)), abs(F(b)))
+        return min(F(a), F(b)) - slack <= F(z) <= max(F(a), F(b)) + slack
 
     def candidates(self, p):
         """value of each of the three formulas at p (None where not computable)"""
